@@ -527,11 +527,11 @@ static Outcome run_encode(const SpecCase& c) {
     }
     ErrorRec de = guarded([&] { cfg.decode(data); });
     if (de.kind != ErrorRec::none) {
-        if (de.kind == ErrorRec::hash_search) {
-            o.inconclusive = true;
-        } else {
-            o.fail("decode-error: decoding raised " + err_name(de));
-        }
+        // update found hash factors for the same ids (no search budget is
+        // injected here), so a search failure while decoding is a failure
+        // of the decoder (F16: a class registered several times had its id
+        // handed to the search several times), not bad luck
+        o.fail("decode-error: decoding raised " + err_name(de));
     } else {
         // decoded tables must stay inside the emitted structure
         for (int k = 0; k < c.spec.n && o.ok; ++k) {
@@ -568,7 +568,7 @@ static Outcome run_encode(const SpecCase& c) {
 Property prop_C13(const std::string& variant) {
     auto gen = [variant](Choice& ch, int size) {
         SpecCase c;
-        c.cfg = pick_cfg(ch, {"chk_vec", "fast_vec", "map"}, variant);
+        c.cfg = pick_cfg(ch, {"chk_vec", "fast_vec", "map", "chk_vec_ind", "fast_vec_ind"}, variant);
         GenOpts o;
         o.id_schemes = {"typeinfo"}; // the generator prints class names
         o.lattice_bias = true;
